@@ -568,6 +568,26 @@ Section Go.
   Lemma go_ref ft nn t d r :
     get_det T t = Some d -> ref = Some r -> mem_pair A r t = true -> G (S ft) nn t = true.
   Proof. intros Hd Hr Hm. rewrite (go_S ft nn t d Hd), Hr, Hm. reflexivity. Qed.
+
+  (* with a "oneOf" *)
+  Local Notation G1 oneo := (go re native T A cov ty fmt enum cst nv sv ik items mni mxi props req ap None None oneo None ref).
+
+  Lemma go_newtype_any oneo ft nn t n dv i :
+    get_det T t = Some (DNewtype n dv i CNone) -> G1 oneo ft nn i = true -> G1 oneo (S ft) nn t = true.
+  Proof.
+    intros Hd Hi. cbn [go]. rewrite Hd. cbn [is_json_value wrapper_of]. rewrite Hi. destruct ref.
+    - destruct (mem_pair A u t); reflexivity.
+    - destruct (vacuous nn ty); reflexivity.
+  Qed.
+
+  Lemma go_union bs ft nn t d :
+    get_det T t = Some d -> ref = None -> wrapper_of d = None ->
+    union_ok re native T cov ty enum cst None None nn d bs = true ->
+    G1 (Some bs) (S ft) nn t = true.
+  Proof.
+    intros Hd Hr Hw Hu. cbn [go]. rewrite Hd, Hr, Hw, Hu.
+    destruct (vacuous nn ty); [reflexivity|]. destruct (is_json_value d); reflexivity.
+  Qed.
 End Go.
 
 Lemma accepts_any_json T ft t : get_det T t = Some DJsonValue -> accepts_any T (S ft) t = true.
@@ -637,6 +657,185 @@ Qed.
 Lemma get_det_of T t d dv : get T t = Some (mkEntry d dv) -> get_det T t = Some d.
 Proof. intro H. unfold get_det. rewrite H. reflexivity. Qed.
 
+(* ------------------------------------------------------------------ the branches of a tagged oneOf *)
+Ltac destruct_matches H :=
+  repeat match type of H with context [match ?x with _ => _ end] => is_var x; destruct x; try discriminate H end.
+
+Lemma xsimple_inv b raws : xsimple b = Some raws ->
+  exists es, b = xsimple_sch es /\ jstrs es = Some raws /\ raws <> [].
+Proof.
+  unfold xsimple. intro H. destruct_matches H.
+  destruct (numv_is_none nv && strv_is_none sv) eqn:E; [|discriminate].
+  apply andb_true_iff in E. destruct E as [E1 E2]. apply numv_is_none_true in E1. apply strv_is_none_true in E2. subst.
+  exists l. destruct (jstrs l) as [[|x r]|]; try discriminate. injection H as <-.
+  split; [reflexivity|]. split; [reflexivity|discriminate].
+Qed.
+
+Lemma xtyped_inv b v sc : xtyped b = Some (v, sc) -> b = xbranch v sc.
+Proof.
+  unfold xtyped. intro H. destruct_matches H.
+  destruct (numv_is_none nv && strv_is_none sv && ustr_eqb u0 u) eqn:E; [|discriminate].
+  injection H as <- <-.
+  apply andb_true_iff in E. destruct E as [E E3]. apply andb_true_iff in E. destruct E as [E1 E2].
+  apply numv_is_none_true in E1. apply strv_is_none_true in E2. apply ustr_eqb_eq in E3. subst. reflexivity.
+Qed.
+
+Lemma xsimple_typed_excl b raws : xsimple b = Some raws -> xtyped b = None.
+Proof. intro H. destruct (xsimple_inv b raws H) as (es & -> & _). reflexivity. Qed.
+
+Lemma xtyped_sch v sc : xtyped (xbranch v sc) = Some (v, sc).
+Proof. unfold xtyped, xbranch. cbn. rewrite ustr_eqb_refl. reflexivity. Qed.
+
+Lemma xsimple_sch_spec es raws : jstrs es = Some raws -> raws <> [] -> xsimple (xsimple_sch es) = Some raws.
+Proof. intros H Hn. unfold xsimple, xsimple_sch. cbn. rewrite H. destruct raws; [congruence|reflexivity]. Qed.
+
+(* a branch of an externally tagged oneOf is one of the two forms *)
+Lemma xnames_cases b l : xnames b = Some l ->
+  (exists es, b = xsimple_sch es /\ jstrs es = Some l /\ l <> []) \/
+  (exists v sc, b = xbranch v sc /\ l = [v]).
+Proof.
+  unfold xnames. destruct (xsimple b) as [raws|] eqn:Hs.
+  - intro H. injection H as <-. left. exact (xsimple_inv b raws Hs).
+  - destruct (xtyped b) as [[v sc]|] eqn:Ht; [|discriminate]. intro H. injection H as <-.
+    right. exists v, sc. split; [exact (xtyped_inv b v sc Ht)|reflexivity].
+Qed.
+
+Lemma xnames_typed v sc : xnames (xbranch v sc) = Some [v].
+Proof. unfold xnames. rewrite xtyped_sch. reflexivity. Qed.
+
+Lemma find_variant_nodup vs : NoDup (map v_raw vs) -> forall vr i0, In vr vs ->
+  exists i, find_variant (v_raw vr) vs i0 = Some (i, vr).
+Proof.
+  induction vs as [|v vs IH]; intros Hnd vr i0 Hin; [destruct Hin|].
+  cbn [map] in Hnd. inversion Hnd as [|? ? Hni Hnd']; subst. cbn [find_variant].
+  destruct Hin as [->|Hin].
+  - rewrite ustr_eqb_refl. exists i0. reflexivity.
+  - destruct (ustr_eqb (v_raw vr) (v_raw v)) eqn:E.
+    + apply ustr_eqb_eq in E. exfalso. apply Hni. rewrite <- E. apply in_map. exact Hin.
+    + apply IH; assumption.
+Qed.
+
+Lemma xall_names_cons b r names : xall_names (b :: r) = Some names ->
+  exists l rest, xnames b = Some l /\ xall_names r = Some rest /\ names = l ++ rest.
+Proof.
+  cbn [xall_names]. destruct (xnames b) as [l|]; [|discriminate].
+  destruct (xall_names r) as [rest|]; [|discriminate]. intro H. injection H as <-.
+  exists l, rest. repeat split; reflexivity.
+Qed.
+
+Lemma one_kind_external bs tg : one_kind bs = Some tg ->
+  tg = TagExternal /\ exists names, xall_names bs = Some names /\ NoDup names.
+Proof.
+  unfold one_kind. destruct (one_external bs) eqn:E; [|discriminate]. intro H. injection H as <-.
+  split; [reflexivity|]. unfold one_external in E. destruct bs as [|b r]; [discriminate|].
+  destruct (xall_names (b :: r)) as [names|]; [|discriminate]. exists names. split; [reflexivity|].
+  clear -E. induction names as [|x l IH]; [constructor|]. cbn [nodup_names] in E.
+  apply andb_true_iff in E. destruct E as [E1 E2]. constructor; [|exact (IH E2)].
+  intro Hin. apply negb_true_iff in E1. assert (mem_ustr x l = true); [|congruence].
+  unfold mem_ustr. apply existsb_exists. exists x. split; [exact Hin|apply ustr_eqb_refl].
+Qed.
+
+(* structural induction that also reaches the lone property of every branch of a oneOf *)
+Definition PropP (P : schema -> Prop) (b : schema) : Prop := forall v sc, sch_props b = [(v, sc)] -> P sc.
+
+Lemma schema_ind_p (P : schema -> Prop) :
+  (forall b, P (SBool b)) ->
+  (forall ty fmt enum cst nv sv ik items ai mni mxi uq props req ap mnp mxp allo anyo oneo no ref dflt title,
+     Forall P items -> Forall (fun kv => P (snd kv)) props -> OForall P ap ->
+     OForall (Forall (PropP P)) oneo ->
+     P (SObj ty fmt enum cst nv sv ik items ai mni mxi uq props req ap mnp mxp allo anyo oneo no ref dflt title)) ->
+  forall s, P s.
+Proof.
+  intros HB HO.
+  assert (H : forall s, P s /\ PropP P s).
+  { apply schema_ind'.
+    - intro b. split; [apply HB|]. intros v sc H. discriminate H.
+    - intros ty fmt enum cst nv sv ik items ai mni mxi uq props req ap mnp mxp allo anyo oneo no ref dflt title
+             IHitems _ IHprops IHap _ _ IHone _. split.
+      + apply HO.
+        * eapply Forall_impl; [|exact IHitems]. intros a Ha. exact (proj1 Ha).
+        * eapply Forall_impl; [|exact IHprops]. intros a Ha. exact (proj1 Ha).
+        * destruct ap; [exact (proj1 IHap)|exact I].
+        * destruct oneo as [bs|]; [|exact I]. cbn [OForall] in *.
+          eapply Forall_impl; [|exact IHone]. intros a Ha. exact (proj2 Ha).
+      + intros v sc Hx. cbn [sch_props] in Hx. subst props. exact (proj1 (Forall_inv IHprops)). }
+  intro s. apply H.
+Qed.
+
+(* structural induction that also reaches the PAYLOADS of the typed branches of a oneOf *)
+Lemma schema_ind_x (P : schema -> Prop) :
+  (forall b, P (SBool b)) ->
+  (forall ty fmt enum cst nv sv ik items ai mni mxi uq props req ap mnp mxp allo anyo oneo no ref dflt title,
+     Forall P items -> Forall (fun kv => P (snd kv)) props -> OForall P ap ->
+     OForall (Forall (fun b => forall v sc, xtyped b = Some (v, sc) -> P sc)) oneo ->
+     P (SObj ty fmt enum cst nv sv ik items ai mni mxi uq props req ap mnp mxp allo anyo oneo no ref dflt title)) ->
+  forall s, P s.
+Proof.
+  intros HB HO.
+  assert (H : forall s, P s /\ (forall v sc, xtyped s = Some (v, sc) -> P sc)).
+  { apply schema_ind'.
+    - intro b. split; [apply HB|]. intros v sc H. discriminate H.
+    - intros ty fmt enum cst nv sv ik items ai mni mxi uq props req ap mnp mxp allo anyo oneo no ref dflt title
+             IHitems _ IHprops IHap _ _ IHone _. split.
+      + apply HO.
+        * eapply Forall_impl; [|exact IHitems]. intros a Ha. exact (proj1 Ha).
+        * eapply Forall_impl; [|exact IHprops]. intros a Ha. exact (proj1 Ha).
+        * destruct ap; [exact (proj1 IHap)|exact I].
+        * destruct oneo as [bs|]; [|exact I]. cbn [OForall] in *.
+          eapply Forall_impl; [|exact IHone]. intros a Ha. exact (proj2 Ha).
+      + intros v sc Hx. apply xtyped_inv in Hx. unfold xbranch in Hx. inversion Hx; subst.
+        exact (proj1 (Forall_inv IHprops)). }
+  intro s. apply H.
+Qed.
+
+Section Branches.
+  Variable cv : schema -> name -> st -> option (details * st).
+
+  Lemma conv_xbranches_simple nm es r s :
+    conv_xbranches cv nm (xsimple_sch es :: r) s =
+    match xsimple (xsimple_sch es) with
+    | Some raws =>
+        match conv_xbranches cv nm r s with
+        | None => None
+        | Some (vs2, d2, s2) => Some (map (fun x => (x, VSimple)) raws ++ vs2, false || d2, s2)
+        end
+    | None => None
+    end.
+  Proof. cbn [conv_xbranches xsimple_sch]. destruct (xsimple _); reflexivity. Qed.
+
+  Lemma conv_xbranches_typed nm v sc r s :
+    conv_xbranches cv nm (xbranch v sc :: r) s =
+    match conv_xvar cv nm v sc s with
+    | None => None
+    | Some (vd, deny, s1) =>
+        match conv_xbranches cv nm r s1 with
+        | None => None
+        | Some (vs2, d2, s2) => Some ((v, vd) :: vs2, deny || d2, s2)
+        end
+    end.
+  Proof.
+    cbn [conv_xbranches xbranch]. destruct (conv_xvar cv nm v sc s) as [[[vd deny] s1]|]; [|reflexivity].
+    reflexivity.
+  Qed.
+
+  Lemma conv_xbranches_names nm : forall bs names s rvs d s1,
+    xall_names bs = Some names -> conv_xbranches cv nm bs s = Some (rvs, d, s1) -> map fst rvs = names.
+  Proof.
+    induction bs as [|b r IH]; intros names s rvs d s1 Hn Hc.
+    - cbn in Hn, Hc. injection Hn as <-. injection Hc as <- _ _. reflexivity.
+    - destruct (xall_names_cons b r names Hn) as (l & rest & Hb & Hr & ->).
+      destruct (xnames_cases b l Hb) as [(es & -> & Hj & Hne)|(v & sc & -> & ->)].
+      + rewrite conv_xbranches_simple, (xsimple_sch_spec es l Hj Hne) in Hc.
+        destruct (conv_xbranches cv nm r s) as [[[vs2 d2] s2]|] eqn:Hrr; [|discriminate].
+        injection Hc as <- _ _. rewrite map_app, map_map. cbn [fst]. rewrite map_id.
+        f_equal. exact (IH _ _ _ _ _ Hr Hrr).
+      + rewrite conv_xbranches_typed in Hc.
+        destruct (conv_xvar cv nm v sc s) as [[[vd deny] sa]|]; [|discriminate].
+        destruct (conv_xbranches cv nm r sa) as [[[vs2 d2] s2]|] eqn:Hrr; [|discriminate].
+        injection Hc as <- _ _. cbn [map fst app]. f_equal. exact (IH _ _ _ _ _ Hr Hrr).
+  Qed.
+End Branches.
+
 Section Main.
   Variable cls : Heck.CharClasses.
   Variable re native : ustring -> ustring -> bool.
@@ -668,89 +867,6 @@ Section Main.
   Definition own_of (te : details) : list ustring :=
     match det_name te with Some n => [n] | None => [] end.
 
-  Lemma frag_obj_inv ty fmt enum cst nv sv ik items ai mni mxi uq props req ap mnp mxp allo anyo oneo no ref dflt title :
-    frag cls keys (SObj ty fmt enum cst nv sv ik items ai mni mxi uq props req ap mnp mxp allo anyo oneo no ref dflt title) = true ->
-    exists nl k,
-      classify ty fmt enum cst nv sv ik items ai mni mxi uq props req ap mnp mxp allo anyo oneo no ref dflt title = Some (nl, k)
-      /\ cst = None /\ allo = None /\ anyo = None /\ oneo = None /\ no = None.
-  Proof.
-    cbn [frag]. destruct (classify _ _ _ _ _ _ _ _ _ _ _ _ _ _ _ _ _ _ _ _ _ _ _ _) as [[nl k]|] eqn:Hc; [|discriminate].
-    intros _. exists nl, k. split; [reflexivity|]. unfold classify in Hc.
-    destruct (no_extras cst ai mnp mxp allo anyo oneo no dflt title) eqn:Hne; [|discriminate].
-    exact (no_extras_inv _ _ _ _ _ _ _ _ _ _ Hne).
-  Qed.
-
-  Lemma covers_frag_Gs T s nn t :
-    frag cls keys s = true -> covers re native T A s nn (TId t) = Gs T s FT nn t.
-  Proof.
-    destruct s as [b|ty fmt enum cst nv sv ik items ai mni mxi uq props req ap mnp mxp allo anyo oneo no ref dflt title];
-      [discriminate|].
-    intro Hf. apply frag_obj_inv in Hf. destruct Hf as (nl & k & _ & _ & -> & _).
-    cbn [covers covers_obj Gs]. reflexivity.
-  Qed.
-
-  Lemma Gs_option T s ft nn o t :
-    frag cls keys s = true -> get_det T o = Some (DOption t) ->
-    Gs T s ft true t = true -> Gs T s (S ft) nn o = true.
-  Proof.
-    destruct s as [b|ty fmt enum cst nv sv ik items ai mni mxi uq props req ap mnp mxp allo anyo oneo no ref dflt title];
-      [discriminate|].
-    intros Hf Hd HG. apply frag_obj_inv in Hf. destruct Hf as (nl & k & _ & _ & -> & -> & -> & ->).
-    cbn [Gs] in *. eapply go_option; eassumption.
-  Qed.
-
-  Lemma Gs_newtype T s ft nn o n dv t :
-    frag cls keys s = true -> get_det T o = Some (DNewtype n dv t CNone) ->
-    Gs T s ft nn t = true -> Gs T s (S ft) nn o = true.
-  Proof.
-    destruct s as [b|ty fmt enum cst nv sv ik items ai mni mxi uq props req ap mnp mxp allo anyo oneo no ref dflt title];
-      [discriminate|].
-    intros Hf Hd HG. apply frag_obj_inv in Hf. destruct Hf as (nl & k & _ & _ & -> & -> & -> & ->).
-    cbn [Gs] in *. eapply go_newtype; eassumption.
-  Qed.
-
-  (* ---------------------------------------------------------------- struct members *)
-  Lemma recase_wire k ident rn st' t' :
-    Sanitize.recase cls k Sanitize.Snake = (ident, rn) ->
-    wire_name (mkProp ident (match rn with Some old => RRename old | None => RNone end) st' t') = Some k.
-  Proof.
-    unfold Sanitize.recase. intro H. injection H as <- <-.
-    destruct (Heck.ustring_eqb (Sanitize.sanitize cls k Sanitize.Snake) k) eqn:E.
-    - apply SanitizeProofs.ustring_eqb_eq in E. unfold wire_name. cbn [p_rename p_name]. rewrite E. reflexivity.
-    - reflexivity.
-  Qed.
-
-  Lemma default_val_S T f i :
-    default_val T (S f) i =
-    match get_det T i with
-    | Some (DOption _) => Some ROptNone
-    | Some (DVec _) | Some (DSet _) => Some (RSeq [])
-    | Some (DMap _ _) => Some (RMap [])
-    | Some DUnit => Some RUnit
-    | Some DBoolean => Some (RBool false)
-    | Some (DInteger n) => if in_int_range n 0 then Some (RInt 0) else None
-    | Some (DFloat _) => Some (RFlt (inject_Z 0))
-    | Some DString => Some (RStr [])
-    | Some DJsonValue => Some (RJson JNull)
-    | Some (DBox t) => default_val T f t
-    | Some (DTuple ts) => option_map RSeq (mapM (default_val T f) ts)
-    | _ => None
-    end.
-  Proof. reflexivity. Qed.
-
-  Lemma missing_optional T p d :
-    p_state p = POptional -> get_det T (p_ty p) = Some d ->
-    match d with DOption _ | DVec _ | DMap _ _ | DUnit => True | _ => False end ->
-    missing_ok re native T p = true.
-  Proof.
-    intros Hs Hd Hk. unfold missing_ok, missing. rewrite Hs. cbv beta iota.
-    unfold DFUEL. rewrite default_val_S, Hd.
-    destruct d; try contradiction; reflexivity.
-  Qed.
-
-  Definition prop_names (base : ustring) (props : list (ustring * schema)) : list ustring :=
-    flat_map (fun kv => names_of cls (snd kv) (prop_type_name cls base (fst kv))) props.
-
   (* ---------------------------------------------------------------- one node *)
   (* everything an arm of [kind_of_type] has tested *)
   Lemma kind_of_type_inv fmt enum nv sv ik items mni mxi uq props req ap tt k :
@@ -767,7 +883,7 @@ Section Main.
     match k with KStruct _ | KMap => True | _ => props = [] /\ req = [] /\ ap = None end /\
     match k with KInt _ => True | _ => fmt = None end /\
     match k with
-    | KRef _ | KAny => False
+    | KRef _ | KAny | KOne _ => False
     | KBool => tt = TBoolean
     | KStr | KStrC _ _ _ => tt = TString
     | KNull => tt = TNull
@@ -813,14 +929,166 @@ Section Main.
         injection H as <-. repeat split; reflexivity.
   Qed.
 
+  Lemma frag_obj_inv ty fmt enum cst nv sv ik items ai mni mxi uq props req ap mnp mxp allo anyo oneo no ref dflt title :
+    frag cls keys (SObj ty fmt enum cst nv sv ik items ai mni mxi uq props req ap mnp mxp allo anyo oneo no ref dflt title) = true ->
+    exists nl k,
+      classify ty fmt enum cst nv sv ik items ai mni mxi uq props req ap mnp mxp allo anyo oneo no ref dflt title = Some (nl, k)
+      /\ cst = None /\ allo = None /\ anyo = None
+      /\ (match k with KOne _ => nl = false /\ exists bs, oneo = Some bs | _ => oneo = None end)
+      /\ no = None.
+  Proof.
+    cbn [frag]. destruct (classify _ _ _ _ _ _ _ _ _ _ _ _ _ _ _ _ _ _ _ _ _ _ _ _) as [[nl k]|] eqn:Hc; [|discriminate].
+    intros _. exists nl, k. split; [reflexivity|]. unfold classify in Hc.
+    destruct oneo as [bs|].
+    - destruct (only_one _ _ _ _ _ _ _ _ _ _ _ _ _ _ _ _ _ _ _ _ _ _ _) eqn:Ho; [|discriminate].
+      destruct (one_kind bs) as [tg|]; [|discriminate]. cbn [option_map] in Hc. injection Hc as <- <-.
+      unfold only_one in Ho. bool_facts. subst. repeat split; try reflexivity. exists bs. reflexivity.
+    - destruct (no_extras cst ai mnp mxp allo anyo None no dflt title) eqn:Hne; [|discriminate].
+      destruct (no_extras_inv _ _ _ _ _ _ _ _ _ _ Hne) as (-> & -> & -> & _ & ->).
+      assert (Hk : forall tg, k <> KOne tg).
+      { intros tg ->. cbn [negb] in Hc. destruct ty as [l|].
+        - destruct (negb (is_none ref)); [discriminate|]. destruct (split_type l) as [[nl' tt]|]; [|discriminate].
+          destruct (kind_of_type fmt enum nv sv ik items mni mxi uq props req ap tt) as [k'|] eqn:Hk;
+            cbn [option_map] in Hc; [|discriminate]. injection Hc as _ ->.
+          apply kind_of_type_inv in Hk. destruct Hk as (_ & _ & _ & _ & _ & _ & _ & []).
+        - destruct (_ && _); [|discriminate]. destruct ref; discriminate. }
+      repeat split; try reflexivity. destruct k; try reflexivity. exfalso. eapply Hk. reflexivity.
+  Qed.
+
+  Lemma is_one_none s : sch_one_of s = None -> is_one s = false.
+  Proof.
+    destruct s as [b|ty fmt enum cst nv sv ik items ai mni mxi uq props req ap mnp mxp allo anyo oneo no ref dflt title];
+      [reflexivity|].
+    cbn [sch_one_of]. intros ->. unfold is_one. cbn [classify_s]. unfold classify.
+    destruct (negb (no_extras _ _ _ _ _ _ _ _ _ _)); [reflexivity|].
+    destruct ty as [l|].
+    - destruct (negb (is_none ref)); [reflexivity|]. destruct (split_type l) as [[nl' tt]|]; [|reflexivity].
+      destruct (kind_of_type fmt enum nv sv ik items mni mxi uq props req ap tt) as [k'|] eqn:Hk; [|reflexivity].
+      cbn [option_map]. apply kind_of_type_inv in Hk. destruct Hk as (_ & _ & _ & _ & _ & _ & _ & Hk).
+      destruct k'; try reflexivity. contradiction.
+    - destruct (_ && _); [|reflexivity]. destruct ref; reflexivity.
+  Qed.
+
+  Definition no_one (s : schema) : Prop :=
+    match s with
+    | SObj _ _ _ _ _ _ _ _ _ _ _ _ _ _ _ _ _ _ _ oneo _ _ _ _ => oneo = None
+    | SBool _ => True
+    end.
+
+  Lemma covers_frag_Gs T s nn t :
+    frag cls keys s = true -> covers re native T A s nn (TId t) = Gs T s FT nn t.
+  Proof.
+    destruct s as [b|ty fmt enum cst nv sv ik items ai mni mxi uq props req ap mnp mxp allo anyo oneo no ref dflt title];
+      [discriminate|].
+    intro Hf. apply frag_obj_inv in Hf. destruct Hf as (nl & k & _ & _ & -> & _).
+    cbn [covers covers_obj Gs]. reflexivity.
+  Qed.
+
+  Lemma Gs_option T s ft nn o t :
+    frag cls keys s = true -> no_one s -> get_det T o = Some (DOption t) ->
+    Gs T s ft true t = true -> Gs T s (S ft) nn o = true.
+  Proof.
+    destruct s as [b|ty fmt enum cst nv sv ik items ai mni mxi uq props req ap mnp mxp allo anyo oneo no ref dflt title];
+      [discriminate|].
+    intros Hf Hno Hd HG. apply frag_obj_inv in Hf. destruct Hf as (nl & k & _ & _ & -> & -> & _ & ->).
+    cbn [no_one] in Hno. subst oneo.
+    cbn [Gs] in *. eapply go_option; eassumption.
+  Qed.
+
+  Lemma Gs_newtype T s ft nn o n dv t :
+    frag cls keys s = true -> get_det T o = Some (DNewtype n dv t CNone) ->
+    Gs T s ft nn t = true -> Gs T s (S ft) nn o = true.
+  Proof.
+    destruct s as [b|ty fmt enum cst nv sv ik items ai mni mxi uq props req ap mnp mxp allo anyo oneo no ref dflt title];
+      [discriminate|].
+    intros Hf Hd HG. apply frag_obj_inv in Hf. destruct Hf as (nl & k & _ & _ & -> & -> & _ & ->).
+    cbn [Gs] in *. eapply go_newtype_any; eassumption.
+  Qed.
+
+  (* ---------------------------------------------------------------- struct members *)
+  Lemma recase_wire k ident rn st' t' :
+    Sanitize.recase cls k Sanitize.Snake = (ident, rn) ->
+    wire_name (mkProp ident (match rn with Some old => RRename old | None => RNone end) st' t') = Some k.
+  Proof.
+    unfold Sanitize.recase. intro H. injection H as <- <-.
+    destruct (Heck.ustring_eqb (Sanitize.sanitize cls k Sanitize.Snake) k) eqn:E.
+    - apply SanitizeProofs.ustring_eqb_eq in E. unfold wire_name. cbn [p_rename p_name]. rewrite E. reflexivity.
+    - reflexivity.
+  Qed.
+
+  Lemma default_val_S T f i :
+    default_val T (S f) i =
+    match get_det T i with
+    | Some (DOption _) => Some ROptNone
+    | Some (DVec _) | Some (DSet _) => Some (RSeq [])
+    | Some (DMap _ _) => Some (RMap [])
+    | Some DUnit => Some RUnit
+    | Some DBoolean => Some (RBool false)
+    | Some (DInteger n) => if in_int_range n 0 then Some (RInt 0) else None
+    | Some (DFloat _) => Some (RFlt (inject_Z 0))
+    | Some DString => Some (RStr [])
+    | Some DJsonValue => Some (RJson JNull)
+    | Some (DBox t) => default_val T f t
+    | Some (DTuple ts) => option_map RSeq (mapM (default_val T f) ts)
+    | _ => None
+    end.
+  Proof. reflexivity. Qed.
+
+  Lemma missing_optional T p d :
+    p_state p = POptional -> get_det T (p_ty p) = Some d ->
+    match d with DOption _ | DVec _ | DMap _ _ | DUnit => True | _ => False end ->
+    missing_ok re native T p = true.
+  Proof.
+    intros Hs Hd Hk. unfold missing_ok, missing. rewrite Hs. cbv beta iota.
+    unfold DFUEL. rewrite default_val_S, Hd.
+    destruct d; try contradiction; reflexivity.
+  Qed.
+
+  Definition prop_names (base : ustring) (props : list (ustring * schema)) : list ustring :=
+    flat_map (fun kv => names_of cls (snd kv) (prop_type_name cls base (fst kv))) props.
+
+  (* the fixpoints over the branches of a oneOf that names_of / frag / byval_refs contain *)
+  Definition one_fold {X} (f : ustring -> schema -> X) (dflt : X) (b : schema) : X :=
+    match b with
+    | SObj _ _ _ _ _ _ _ _ _ _ _ _ bprops _ _ _ _ _ _ _ _ _ _ _ =>
+        match bprops with
+        | [(v, sc)] => f v sc
+        | _ => dflt
+        end
+    | SBool _ => dflt
+    end.
+  Definition one_names (nm' : name) : list schema -> list ustring :=
+    fix go (l : list schema) {struct l} : list ustring :=
+      match l with
+      | [] => []
+      | b :: r => one_fold (fun v sc => names_of cls sc (append_name nm' v)) [] b ++ go r
+      end.
+  Definition one_frags : list schema -> bool :=
+    fix go (l : list schema) {struct l} : bool :=
+      match l with
+      | [] => true
+      | b :: r => one_fold (fun v sc => frag cls keys sc) true b && go r
+      end.
+
   Definition frag_kind (k : kind) (items : list schema) (props : list (ustring * schema))
-             (req : list ustring) (ap : option schema) : bool :=
+             (req : list ustring) (ap : option schema) (oneo : option (list schema)) : bool :=
     match k with
+    | KOne _ =>
+        match oneo with
+        | Some bs =>
+            match xall_names bs with
+            | Some names => match Sanitize.variant_idents cls names with Sanitize.Ok _ => true | _ => false end
+            | None => false
+            end && payloads_ok bs && one_frags bs
+        | None => false
+        end
     | KEnum raws => match Sanitize.variant_idents cls raws with Sanitize.Ok _ => true | _ => false end
     | KStrC mx mn pat => strc_ok mx mn pat
     | KStruct _ =>
         keys_sorted (map fst props) && forallb (fun r => has_key r props) req
-        && Sanitize.unique (field_idents cls props) && forallb (fun kv => frag cls keys (snd kv)) props
+        && Sanitize.unique (field_idents cls props)
+        && forallb (fun kv => mem_ustr (fst kv) req || negb (is_one (snd kv))) props
+        && forallb (fun kv => frag cls keys (snd kv)) props
     | KMap => match ap with Some (SBool true) | None => true | Some vs => frag cls keys vs end
     | KVec _ | KTuple => forallb (frag cls keys) items
     | KRef r => mem_ustr r keys
@@ -835,8 +1103,9 @@ Section Main.
       end.
 
   Definition sub_names (k : kind) (nm' : name) (items : list schema) (props : list (ustring * schema))
-             (ap : option schema) : list ustring :=
+             (ap : option schema) (oneo : option (list schema)) : list ustring :=
     match k with
+    | KOne _ => match oneo with Some bs => one_names nm' bs | None => [] end
     | KStruct _ => match type_name cls nm' with Some base => prop_names base props | None => [] end
     | KMap => match ap with Some vs => names_of cls vs (value_name nm') | None => [] end
     | KVec c => flat_map (fun it => names_of cls it (seq_item_name cls c nm')) items
@@ -859,9 +1128,15 @@ Section Main.
                   /\ kind_of_type fmt enum nv sv ik items mni mxi uq props req ap tt = Some k)
     \/ (ty = None /\ nl = false /\ nv = numv_none /\ sv = strv_none /\ mni = None /\ mxi = None /\
         fmt = None /\ enum = None /\ ik = ItemsAbsent /\ items = [] /\ props = [] /\ req = [] /\ ap = None /\
-        ((exists r, ref = Some r /\ k = KRef r) \/ (ref = None /\ k = KAny))).
+        ((exists r, ref = Some r /\ k = KRef r) \/ (ref = None /\ k = KAny)
+         \/ (exists bs tg, oneo = Some bs /\ ref = None /\ k = KOne tg /\ one_kind bs = Some tg))).
   Proof.
-    unfold classify. destruct (negb (no_extras _ _ _ _ _ _ _ _ _ _)); [discriminate|].
+    unfold classify. destruct oneo as [bs|].
+    { destruct (only_one _ _ _ _ _ _ _ _ _ _ _ _ _ _ _ _ _ _ _ _ _ _ _) eqn:Ho; [|discriminate].
+      destruct (one_kind bs) as [tg|] eqn:Hk; [|discriminate]. cbn [option_map]. intro H. injection H as <- <-.
+      unfold only_one in Ho. bool_facts. subst. right. repeat (split; [reflexivity|]).
+      right. right. exists bs, tg. repeat split; assumption || reflexivity. }
+    destruct (negb (no_extras _ _ _ _ _ _ _ _ _ _)); [discriminate|].
     destruct ty as [l|].
     - destruct ref as [r|]; [discriminate|]. cbn [is_none negb].
       destruct (split_type l) as [[nl' tt]|] eqn:Hs; [|discriminate].
@@ -870,7 +1145,7 @@ Section Main.
     - destruct (_ && _) eqn:Hc; [|discriminate]. bool_facts. subst.
       destruct ref as [r|]; intro H; injection H as <- <-; right; repeat (split; [reflexivity|]).
       + left. exists r. split; reflexivity.
-      + right. split; reflexivity.
+      + right. left. split; reflexivity.
   Qed.
 
   (* ---------------------------------------------------------------- definitions *)
@@ -884,7 +1159,8 @@ Section Main.
     destruct (names_of cls sch (NRequired d)) as [|m r] eqn:Hn.
     - split; [apply incl_refl|]. intros _. constructor.
     - destruct (match classify_s sch with
-                | Some (false, KEnum _) | Some (false, KStruct _) | Some (false, KStrC _ _ _) => true
+                | Some (false, KEnum _) | Some (false, KStruct _) | Some (false, KStrC _ _ _)
+                | Some (false, KOne _) => true
                 | _ => false end) eqn:Htop.
       + split; [|intro H; exact H].
         assert (Hm : m = san d).
@@ -1006,16 +1282,64 @@ Section Main.
     - exfalso. exact (Forall_inv HT Hf1 _ _ (idx_name_some nm i Hnm) Hc).
   Qed.
 
-  Lemma conv_kind_total items props req ap k nm s0 :
-    frag_kind k items props req ap = true ->
-    Forall Tot items -> Forall (fun kv => Tot (snd kv)) props -> OForall Tot ap ->
-    (match k with KVec _ => exists it, items = [it] | _ => True end) ->
-    name_opt nm <> None ->
-    conv_kind cls (ref_id D) cvf k nm items props req ap s0 <> None.
+  (* the payloads of the typed branches *)
+  Definition PayP (P : schema -> Prop) (b : schema) : Prop := forall v sc, xtyped b = Some (v, sc) -> P sc.
+
+  Lemma append_name_some nm v : name_opt nm <> None -> name_opt (append_name nm v) <> None.
+  Proof. destruct nm; cbn [append_name name_opt]; try discriminate. intro H; exact H. Qed.
+
+  Lemma conv_xvar_total nm v sc s0 :
+    Tot sc -> frag cls keys sc = true -> name_opt nm <> None -> conv_xvar cvf nm v sc s0 <> None.
   Proof.
-    intros Hfk HTi HTp HTa Hshape Hnm.
+    intros HT Hf Hnm. unfold conv_xvar.
+    destruct (cvf sc (append_name nm v) s0) as [[te s1]|] eqn:Hc.
+    - destruct te; try (destruct (assign _ s1)); discriminate.
+    - exfalso. exact (HT Hf _ _ (append_name_some nm v Hnm) Hc).
+  Qed.
+
+  Lemma one_frags_cons b r : one_frags (b :: r) = one_fold (fun v sc => frag cls keys sc) true b && one_frags r.
+  Proof. reflexivity. Qed.
+
+  Lemma conv_xbranches_total nm : name_opt nm <> None -> forall bs names,
+    Forall (PayP Tot) bs -> xall_names bs = Some names -> one_frags bs = true ->
+    forall s0, conv_xbranches cvf nm bs s0 <> None.
+  Proof.
+    intros Hnm. induction bs as [|b r IH]; intros names HT Hn Hf s0; [discriminate|].
+    destruct (xall_names_cons b r names Hn) as (l & rest & Hb & Hr & ->).
+    rewrite one_frags_cons in Hf. apply andb_true_iff in Hf. destruct Hf as [Hf1 Hf2].
+    destruct (xnames_cases b l Hb) as [(es & -> & Hj & Hne)|(v & sc & -> & ->)].
+    - rewrite conv_xbranches_simple, (xsimple_sch_spec es l Hj Hne).
+      destruct (conv_xbranches cvf nm r s0) as [[[vs2 d2] s2]|] eqn:Hrr; [discriminate|].
+      exfalso. exact (IH rest (Forall_inv_tail HT) Hr Hf2 s0 Hrr).
+    - rewrite conv_xbranches_typed. cbn [one_fold xbranch] in Hf1.
+      destruct (conv_xvar cvf nm v sc s0) as [[[vd deny] sa]|] eqn:Hv.
+      + destruct (conv_xbranches cvf nm r sa) as [[[vs2 d2] s2]|] eqn:Hrr; [discriminate|].
+        exfalso. exact (IH rest (Forall_inv_tail HT) Hr Hf2 sa Hrr).
+      + exfalso. exact (conv_xvar_total nm v sc s0 (Forall_inv HT v sc (xtyped_sch v sc)) Hf1 Hnm Hv).
+  Qed.
+
+  Lemma conv_kind_total items props req ap oneo k nm s0 :
+    frag_kind k items props req ap oneo = true ->
+    Forall Tot items -> Forall (fun kv => Tot (snd kv)) props -> OForall Tot ap ->
+    OForall (Forall (PayP Tot)) oneo ->
+    (match k with
+     | KVec _ => exists it, items = [it]
+     | KOne tg => tg = TagExternal
+     | _ => True end) ->
+    name_opt nm <> None ->
+    conv_kind cls (ref_id D) cvf k nm items props req ap oneo s0 <> None.
+  Proof.
+    intros Hfk HTi HTp HTa HTo Hshape Hnm.
     destruct (type_name_some nm Hnm) as (n & Hn).
-    destruct k as [| | | |mx mn pat|r|raws|deny| | |c|c|r|]; cbn [conv_kind]; try discriminate.
+    destruct k as [| | | |mx mn pat|r|raws|deny| | |c|c|r| |tg]; cbn [conv_kind]; try discriminate.
+    9: { (* KOne *)
+      subst tg. rewrite Hn. cbn [frag_kind] in Hfk. destruct oneo as [bs|]; [|discriminate].
+      apply andb_true_iff in Hfk. destruct Hfk as [Hfk Hfr]. apply andb_true_iff in Hfk. destruct Hfk as [Hid _].
+      destruct (xall_names bs) as [names|] eqn:Hnames; [|discriminate].
+      destruct (conv_xbranches cvf nm bs s0) as [[[rvs deny] s1]|] eqn:Hc;
+        [|exfalso; exact (conv_xbranches_total nm Hnm bs names HTo Hnames Hfr s0 Hc)].
+      unfold mk_tagged. rewrite (conv_xbranches_names cvf nm bs names s0 rvs deny s1 Hnames Hc).
+      destruct (Sanitize.variant_idents cls names); try discriminate Hid. discriminate. }
     - (* KStrC *)
       destruct (assign DString _). rewrite Hn. discriminate.
     - (* KEnum *)
@@ -1023,6 +1347,7 @@ Section Main.
       destruct (Sanitize.variant_idents cls raws); try discriminate Hfk. discriminate.
     - (* KStruct *)
       rewrite Hn. cbn [frag_kind] in Hfk. apply andb_true_iff in Hfk. destruct Hfk as [Hfk Hfp].
+      apply andb_true_iff in Hfk. destruct Hfk as [Hfk _].
       apply andb_true_iff in Hfk. destruct Hfk as [_ Hun].
       destruct (conv_props cls cvf n req props s0) as [[ps sa]|] eqn:Hcp;
         [|exfalso; exact (conv_props_total n req props HTp Hfp s0 Hcp)].
@@ -1063,28 +1388,32 @@ Section Main.
 
   Lemma conv_total : forall s, Tot s.
   Proof.
-    apply schema_ind'.
+    apply schema_ind_x.
     - intros b Hf. discriminate Hf.
     - intros ty fmt enum cst nv sv ik items ai mni mxi uq props req ap mnp mxp allo anyo oneo no ref dflt title
-             IHitems _ IHprops IHap _ _ _ _.
+             IHitems IHprops IHap IHone.
       intros Hf nm s0 Hnm.
       destruct (frag_obj_inv _ _ _ _ _ _ _ _ _ _ _ _ _ _ _ _ _ _ _ _ _ _ _ _ Hf)
         as (nl & k & Hcl & _).
       pose proof Hcl as Hcases. apply classify_cases in Hcases.
-      cbn [frag] in Hf. rewrite Hcl in Hf. change (frag_kind k items props req ap = true) in Hf.
+      cbn [frag] in Hf. rewrite Hcl in Hf. change (frag_kind k items props req ap oneo = true) in Hf.
       cbn [conv]. rewrite Hcl.
-      assert (Hshape : match k with KVec _ => exists it, items = [it] | _ => True end).
+      assert (Hshape : match k with KVec _ => exists it, items = [it] | KOne tg => tg = TagExternal | _ => True end).
       { destruct k; try exact I.
-        destruct Hcases as [(l & tt & _ & _ & _ & Hk)|(_ & _ & _ & _ & _ & _ & _ & _ & _ & _ & _ & _ & _ & [(r & _ & Hk)|(_ & Hk)])];
-          try discriminate Hk.
-        apply kind_of_type_inv in Hk. destruct Hk as (_ & _ & _ & _ & _ & _ & _ & Hi). exact (proj2 (proj2 Hi)). }
+        - destruct Hcases as [(l & tt & _ & _ & _ & Hk)|(_ & _ & _ & _ & _ & _ & _ & _ & _ & _ & _ & _ & _ & [(r & _ & Hk)|[(_ & Hk)|(bs & tg & _ & _ & Hk & _)]])];
+            try discriminate Hk.
+          apply kind_of_type_inv in Hk. destruct Hk as (_ & _ & _ & _ & _ & _ & _ & Hi). exact (proj2 (proj2 Hi)).
+        - destruct Hcases as [(l & tt & _ & _ & _ & Hk)|(_ & _ & _ & _ & _ & _ & _ & _ & _ & _ & _ & _ & _ & [(r & _ & Hk)|[(_ & Hk)|(bs & tg' & _ & _ & Hk & Hok)]])];
+            try discriminate Hk.
+          + apply kind_of_type_inv in Hk. destruct Hk as (_ & _ & _ & _ & _ & _ & _ & []).
+          + injection Hk as ->. exact (proj1 (one_kind_external bs tg' Hok)). }
       assert (Hin : name_opt (inner_name nm) <> None).
       { destruct nm; cbn [inner_name name_opt]; try discriminate. exact Hnm. }
       destruct nl; cbn [conv_node].
-      + destruct (conv_kind cls (ref_id D) cvf k (inner_name nm) items props req ap s0) as [[te sa]|] eqn:Hc.
+      + destruct (conv_kind cls (ref_id D) cvf k (inner_name nm) items props req ap oneo s0) as [[te sa]|] eqn:Hc.
         * destruct (assign te sa). discriminate.
-        * exfalso. exact (conv_kind_total items props req ap k (inner_name nm) s0 Hf IHitems IHprops IHap Hshape Hin Hc).
-      + exact (conv_kind_total items props req ap k nm s0 Hf IHitems IHprops IHap Hshape Hnm).
+        * exfalso. exact (conv_kind_total items props req ap oneo k (inner_name nm) s0 Hf IHitems IHprops IHap IHone Hshape Hin Hc).
+      + exact (conv_kind_total items props req ap oneo k nm s0 Hf IHitems IHprops IHap IHone Hshape Hnm).
   Qed.
 
   Lemma conv_def_total d sch t s0 :
